@@ -18,6 +18,7 @@ Line protocol of the C20 model (one s-expression in, one out).
   (ppcom COM)               -> STR                            the lines of print_com joined by newlines
   (lex STR)                 -> (ok (TOK ...)) | err           TOK = (id x) | (num n) | (sym s)
   (nameok x)                -> T | F
+  (lexcom COM)              -> (lexOKc  lex(ppCom c)==comToks c)   each T | F
   (parsecond STR)           -> (ok E) | err
   (parsecom STR)            -> (ok COM) | err
   (eval E STATE)            -> (int n) | (bool T|F) | none
@@ -138,7 +139,7 @@ def handle (line : String) : String :=
       let a := computeWp c [p] q
       let vcs := getVcs a
       toString (Sexp.list [.atom "ok", acomTo a, exprsTo vcs, .list (vcs.map fun v => .atom (enc (pp v))),
-        .list [Sexp.ofBool (wsCom c), Sexp.ofBool (wfC p), Sexp.ofBool (wfC q), Sexp.ofBool (vcs.all wfC)]])
+        .list [Sexp.ofBool (wsCom c), Sexp.ofBool (wfC p), Sexp.ofBool (wfC q), Sexp.ofBool (vcs.all fun v => wfC v && namesOK v)]])
     | _, _, _ => "bad-op"
   | some (.list [.atom "vcsh", c, p, q]) =>
     match comOf c, exprOf p, exprOf q with
@@ -167,6 +168,10 @@ def handle (line : String) : String :=
         | .num n => .list [.atom "num", Sexp.ofNat n]
         | t => .list [.atom "sym", .atom (enc (String.ofList (tokChars t)))])])
     | none => "err"
+  | some (.list [.atom "lexcom", c]) =>
+    match comOf c with
+    | some c => toString (Sexp.list [Sexp.ofBool (lexOKc c), Sexp.ofBool (lex (ppCom c) == some (comToks c))])
+    | none => "bad-op"
   | some (.list [.atom "nameok", .atom x]) => toString (Sexp.ofBool (nameOK (dec x)))
   | some (.list [.atom "ppcom", c]) =>
     match comOf c with
